@@ -124,7 +124,11 @@ def explore_symbolic(make_world, make_run, shape, *, seed=0, max_paths=10**9, de
     res = dict(shape=shape, stats=stats, violations=[], harness_errors=[], validated=0,
                functions=sorted(ftrace.names))
 
-    def replay(assignment):
+    import inspect as _inspect
+
+    takes_info = "replay_info" in _inspect.signature(make_run).parameters
+
+    def replay(assignment, info=None):
         ex2 = Explorer(timeout_ms=timeout_ms, seed=seed, forced=assignment)
         # declare forced vars up front so that their equalities are asserted
         import z3
@@ -132,13 +136,13 @@ def explore_symbolic(make_world, make_run, shape, *, seed=0, max_paths=10**9, de
         for name, v in assignment.items():
             ex2.declare(z3.Bool(name) if isinstance(v, bool) else z3.Int(name))
         W2 = make_world(ex2, shape, True)
-        run2 = make_run(W2, shape)
+        run2 = make_run(W2, shape, replay_info=info) if takes_info else make_run(W2, shape)
         st2, c2 = ex2.explore(run2, max_paths=1)
         return st2, c2, W2
 
     for c in cands[:5]:
         try:
-            st2, c2, W2 = replay(c["assignment"])
+            st2, c2, W2 = replay(c["assignment"], c["info"])
         except Exception:  # noqa: BLE001
             res["harness_errors"].append(dict(shape=shape, assignment=c["assignment"],
                                               error=traceback.format_exc()[-800:]))
@@ -229,7 +233,12 @@ def replay_record(mod, rec, with_known=True, verbose=True):
     for name, v in assignment.items():
         ex.declare(z3.Bool(name) if isinstance(v, bool) else z3.Int(name))
     W = mod.make_world(ex, shape, True)
-    run = mod.make_run(W, shape) if with_known else mod.make_run(W, shape, known_active={})
+    import inspect as _inspect
+
+    kwx = {}
+    if "replay_info" in _inspect.signature(mod.make_run).parameters:
+        kwx["replay_info"] = rec.get("symbolic_run")
+    run = mod.make_run(W, shape, **kwx) if with_known else mod.make_run(W, shape, known_active={}, **kwx)
     st, c = ex.explore(run, max_paths=1)
     if verbose:
         if hasattr(W, "describe"):
